@@ -81,6 +81,23 @@ func stepEnc(s refcodec.RefStep) *enc {
 	return e
 }
 
+// listChain: lists nested depth levels deep; a level holds the nested list and sometimes a
+// null or boolean before or after it, the innermost list holds one small leaf.
+func listChain(r *vlib.Rand, depth int) refcodec.V {
+	cur := refcodec.V{Tag: refcodec.TList, List: []refcodec.V{valgen.Leaf(r, 3)}}
+	for d := 1; d < depth; d++ {
+		items := []refcodec.V{cur}
+		switch r.Intn(6) {
+		case 0:
+			items = []refcodec.V{{Tag: refcodec.TNull}, cur}
+		case 1:
+			items = []refcodec.V{cur, {Tag: refcodec.TBool, I: int64(r.Intn(2))}}
+		}
+		cur = refcodec.V{Tag: refcodec.TList, List: items}
+	}
+	return cur
+}
+
 func init() {
 	// ---- tagged values -----------------------------------------------------------------
 	fam("value/gen-shallow", func(r *vlib.Rand) *enc { return valueEnc(valgen.Gen(r, r.Intn(2), r.Range(0, 6))) })
@@ -89,13 +106,8 @@ func init() {
 		return valueEnc(valgen.GenTag(r, []byte{refcodec.TList, refcodec.TMap, refcodec.TIntMap}[r.Intn(3)], r.Range(1, 3), r.Range(1, 8)))
 	})
 	fam("value/deep", func(r *vlib.Rand) *enc { return valueEnc(valgen.Deep(r, r.Range(3, 40))) })
-	// long chains: what nesting adds up to only shows when there are hundreds of levels
-	fam("value/deep-chain", func(r *vlib.Rand) *enc {
-		if r.Bool() {
-			return valueEnc(valgen.Deep(r, r.Range(250, 400)))
-		}
-		return valueEnc(valgen.Deep(r, r.Range(40, 120)))
-	})
+	// long chains of lists: what nesting adds up to only shows with hundreds of levels
+	fam("value/list-chain", func(r *vlib.Rand) *enc { return valueEnc(listChain(r, r.Range(60, 500))) })
 	fam("value/wide", func(r *vlib.Rand) *enc {
 		tags := []byte{refcodec.TList, refcodec.TMap, refcodec.TIntMap, refcodec.TIntArray, refcodec.TLongArray, refcodec.TFloatArray, refcodec.TTextArray}
 		n := []int{100, 127, 128, 129, 255, 256, 300, 1000, 3000}[r.Intn(9)]
